@@ -104,13 +104,19 @@ def p_array(n, v, h):
     import numpy as np
     vs = np.array([v, v * 0.5, v * 1.1])
     r = call(n, vs, h)
-    ok = all(rel(float(r[i]), float(call(n, float(vs[i]), h)), 1e-12) for i in range(3))
+    ok = all(rel(float(r[i]), float(call(n, float(vs[i]), h)), 1e-7 if n in ("tas2cas", "cas2tas") else 1e-12) for i in range(3))
     return "ok" if ok else "array-mismatch"
 
 
 def p_sequence(v, h):
     """numpy-array altitudes and repeated calls give the scalar single-call results (no state between calls)"""
     import numpy as np
+
+    def tol(n):
+        # tas2cas / cas2tas compute (1+u)^3.5 - 1 with u ~ v^2: at a few m/s the cancellation amplifies the last-bit
+        # difference between numpy's array and scalar pow to ~1e-10 relative (seen at 6.6 m/s); the exact law is the
+        # theorem over the reals, the run only has to see a stateful or aliased implementation (errors of order 1)
+        return 1e-7 if n in ("tas2cas", "cas2tas") else 1e-12
     hs = np.array([h, h * 0.5 + 100.0, 11000.0, h])
     vs = np.array([v, v * 0.7, v * 1.2, v + 1.0])
     want = {}
@@ -121,7 +127,7 @@ def p_sequence(v, h):
     for rep in range(2):
         for n in ("tas2eas", "eas2tas", "tas2cas", "cas2tas", "tas2mach"):
             r = call(n, vs, hs)
-            if not all(rel(float(x), y, 1e-12) for x, y in zip(r, want[n])):
+            if not all(rel(float(x), y, tol(n)) for x, y in zip(r, want[n])):
                 bad.append("%s#%d" % (n, rep))
         r = call("density", hs)
         if not all(rel(float(x), y, 1e-12) for x, y in zip(r, wd)):
@@ -150,14 +156,14 @@ def p_sequence(v, h):
         for n in ("tas2cas", "tas2eas", "tas2mach"):
             r = call(n, vs, h2)
             w = [float(call(n, float(a), float(b))) for a, b in zip(vs, h2)]
-            if not all(rel(float(x), y, 1e-12) for x, y in zip(r, w)):
+            if not all(rel(float(x), y, tol(n)) for x, y in zip(r, w)):
                 bad.append("inplace-%s#%d" % (n, step))
         v2 = vs.copy()
         call("tas2cas", v2, h2)
         v2 *= 0.5
         r = call("tas2cas", v2, h2)
         w = [float(call("tas2cas", float(a), float(b))) for a, b in zip(v2, h2)]
-        if not all(rel(float(x), y, 1e-12) for x, y in zip(r, w)):
+        if not all(rel(float(x), y, tol("tas2cas")) for x, y in zip(r, w)):
             bad.append("inplace-speed#%d" % step)
     return "ok" if not bad else ",".join(bad)
 
